@@ -1,6 +1,6 @@
 import json, itertools, collections, sys
 from multiprocessing import Pool
-sys.path.insert(0,'/repo')
+sys.path.insert(0, __import__('os').environ.get('SUT', '/repo'))
 from simple_ddl_parser import DDLParser
 COLS=['a','b','c','d']
 def items():
